@@ -55,12 +55,13 @@ def execute(case, ctx):
     zall = zs + big
     taus = [f * beta for f in TAUF]
     ns = case["n"]
-    q = [("ops", "ops 0"), ("averages", "averages")]
+    q = [("ops", "ops 0")]
     for k, (i, j) in enumerate(case["pairs"]):
         q.append((("g", k), "gf ct %d %d n %d %s z %d %s tau %d %s" % (
             i, j, len(ns), " ".join(map(str, ns)), len(zall), " ".join("%r %r" % (z.real, z.imag) for z in zall),
             len(taus), " ".join(repr(t) for t in taus))))
         q.append((("gt", k), "gf sa %d %d z %d %s" % (j, i, len(zall), " ".join("%r %r" % (z.real, -z.imag) for z in zall))))
+    q.append(("averages", "averages"))     # after the Green's functions: in phased mode the first G is prepared before the density matrix is computed
     run = ModelRun(ctx, mdl, q)
     classes = model_classes(mdl)
     g = pipeline_guard(run, classes, run.qlines["ops"])
